@@ -42,7 +42,7 @@ impl Monitor for C13 {
         "exploration"
     }
     fn num_cases(&self, tier: Tier) -> u64 {
-        tier.pick(1600, 40_000)
+        tier.pick(9_600, 240_000)
     }
     fn floors(&self, tier: Tier) -> Vec<(&'static str, u64)> {
         let f = tier.pick(300, 6_000);
